@@ -192,6 +192,25 @@ pub fn gen_ty(rng: &mut Rng, depth: usize, cfg: &GenCfg, customs: &[String], opt
             let n = list_len(rng, 1, 4);
             GTy::Enum((0..n).map(|_| GVariant { name: unique(rng, &mut used, field_name), comments: comments(rng, cfg.deep_comments) }).collect())
         }
+        3 if rng.chance(1, 30) => {
+            // a wide object whose fields are themselves small inline objects / enums (what nesting derived types
+            // produces): dozens of inline types inside one member type, none of them deep
+            let n = rng.range(20, 70);
+            let mut used = vec![];
+            GTy::Struct(
+                (0..n)
+                    .map(|k| {
+                        let mut u2 = vec![];
+                        let inner = match k % 3 {
+                            0 => GTy::Struct(vec![GField { name: unique(rng, &mut u2, field_name), comments: vec![], ty: GTy::Int }]),
+                            1 => GTy::Optional(Box::new(GTy::Struct(vec![GField { name: unique(rng, &mut u2, field_name), comments: vec![], ty: GTy::Array(Box::new(GTy::Str)) }]))),
+                            _ => GTy::Enum((0..2).map(|_| GVariant { name: unique(rng, &mut u2, field_name), comments: vec![] }).collect()),
+                        };
+                        GField { name: unique(rng, &mut used, field_name), comments: vec![], ty: inner }
+                    })
+                    .collect(),
+            )
+        }
         3 => {
             let n = rng.below(2) + 1;
             GTy::Struct(gen_fields(rng, depth - 1, cfg, customs, n, cfg.deep_comments))
